@@ -38,7 +38,7 @@ def run(tier, seed):
     extra = [{"name": "build:%s:%s" % (n, v), "harness": "generator", "kind": "main", "final": "harness_error", "msg": e}
              for n, v, e in skipped]
     return runner.run_property(
-        "C02", hs, tier, seed, 60 if tier == "quick" else 150,
+        "C02", hs, tier, seed, 120 if tier == "quick" else 200,
         bounds={"maxlen": 2 if tier == "quick" else 3, "str_len": 3, "schema_depth": 3, "schemas": len(hs)},
         assumptions=ASSUMPTIONS,
         functions_note=["generated __mashumaro_to_dict__ / to_jsonb / to_msgpack / to_toml of every schema class",
